@@ -24,8 +24,8 @@ fn job_for(p: &Prog) -> Value {
 pub fn part_sweep(tier: Tier) -> Part {
     let mut part = Part::new("dwarf-agreement-sweep");
     let (bodies, cfgs) = match tier {
-        Tier::Quick => (corpus::quick_bodies(), vec![Config::default_cfg(), Config { toolchain: "stable".into(), opt: 1, dwarf: 5, pie: true }]),
-        Tier::Thorough => (corpus::enumerate_bodies(2), Config::matrix().into_iter().filter(|c| c.pie).collect()),
+        Tier::Quick => (corpus::quick_bodies(), vec![Config::default_cfg(), Config { toolchain: "stable".into(), opt: 1, dwarf: 5, pie: true }, Config { toolchain: "1.89".into(), opt: 0, dwarf: 5, pie: false }]),
+        Tier::Thorough => (corpus::enumerate_bodies(2), Config::matrix()),
     };
     part.rule = "for every corpus binary, inside one debugger session: every instruction address (capstone over the ranges) of every user function -> resolve_function_at_pc function and (file, line) vs the reference reader's innermost function and row (last row <= pc within its sequence); every line 1..max+2 of the source file under two spellings of the path -> set_breakpoint_at_line addresses must be statement rows of that line (of the next line only when the line has none) and every function instance containing the line must get one; every function name (+ helpers + a missing one) -> set_breakpoint_at_fn addresses must lie inside live instances, one per instance, at the prologue_end row when there is one. Non-trivial = queries the debugger answered".into();
     let progs = match corpus::build_many(&bodies, &cfgs).and_then(prepare) {
